@@ -401,6 +401,64 @@ def body_intervals(case, ctx):
         raise Violation("from_intervals:reductions", row_sum=jsonable(rs), col_sum=jsonable(cs), col_any=jsonable(ca), matrix=exp.tolist())
 
 
+def body_sequence(case, ctx):
+    """2-5 operations on ONE 2-D / ragged run-length object; each equals numpy on the dense rows and the object still
+    decodes to the same rows afterwards (caches and shared geometry objects show up here)"""
+    rows, x = base(case, ctx)
+    n = len(rows)
+    ctx.nt(len(case["ops"]) >= 2 and n >= 2)
+    with np.errstate(all="ignore"):
+        for k, op in enumerate(case["ops"]):
+            ctx.label("seq:" + op[0])
+            info = dict(step=k, op=op, before=case["ops"][:k])
+            if op[0] == "decode":
+                expect_rows(lib(lambda: x), rows, "seq-decode", **info)
+            elif op[0] == "rowsum":
+                g = lib(lambda: np.asarray(x.sum(axis=-1)))
+                if not g.ok or not vec_close(g.value, np.array([np.sum(r) for r in rows])):
+                    raise Violation("seq-row-sum", got=g.brief(), **info)
+            elif op[0] == "colsum":
+                L = max(len(r) for r in rows)
+                exp = np.array([np.sum([r[j] for r in rows if len(r) > j]) for j in range(L)])
+                g = lib(lambda: np.asarray(x.sum(axis=0)))
+                if not g.ok or not vec_close(g.value, exp):
+                    raise Violation("seq-column-sum", got=g.brief(), expected=jsonable(exp), **info)
+            elif op[0] == "any":
+                g = lib(lambda: np.asarray(x.any(axis=-1)))
+                if not g.ok or [bool(v) for v in g.value] != [bool(np.any(r)) for r in rows]:
+                    raise Violation("seq-row-any", got=g.brief(), **info)
+            elif op[0] == "elem":
+                i = op[1] % n
+                j = op[2] % (2 * len(rows[i])) - len(rows[i])
+                g = lib(lambda: x[i, j])
+                if not g.ok or np.asarray(g.value).size != 1 or not arrays_equal(np.asarray(g.value).reshape(()), rows[i][j]):
+                    raise Violation("seq-element", i=i, j=j, got=g.brief(), **info)
+            elif op[0] == "rowsel":
+                sel = fit_sel(op[1], n)
+                exp, single = sel_rows(rows, sel)
+                expect_rows(lib(lambda: x[py_sel(sel)]), exp, "seq-row-select", sel=sel, **info)
+            elif op[0] == "ufunc":
+                e = lib(lambda: [r + 1 for r in rows])
+                if e.ok:
+                    expect_rows(lib(lambda: x + 1), e.value, "seq-ufunc", **info)
+            elif op[0] == "neg":
+                e = lib(lambda: [np.abs(r) for r in rows])
+                if e.ok:
+                    expect_rows(lib(lambda: abs(x)), e.value, "seq-abs", **info)
+            expect_rows(lib(lambda: x), rows, "seq-object-after-" + op[0], **info)
+
+
+@st.composite
+def sequence_case(draw, tier):
+    case = draw(arr_st())
+    simple = st.sampled_from([["decode"], ["rowsum"], ["colsum"], ["any"], ["ufunc"], ["neg"]])
+    op = st.one_of(simple, simple.map(list), simple.map(lambda o: list(o)), simple.map(lambda o: o[:]),
+                   st.tuples(st.just("elem"), st.integers(0, 100), st.integers(0, 100)).map(list),
+                   st.tuples(st.just("rowsel"), RAW_SEL).map(list))
+    case["ops"] = draw(st.lists(op, min_size=2, max_size=5))
+    return case
+
+
 # ---------------------------------------------------------------- strategies
 
 @st.composite
@@ -542,6 +600,9 @@ SUBCHECKS = [
              doc="ragged variant: ravel() and np.concatenate"),
     SubCheck("ufunc", body_ufunc, ufunc_case, quick=8000, thorough=500000, shards_quick=5,
              doc="unary ufuncs; scalar or (n,1) column on either side, operand order respected"),
+    SubCheck("op-sequence", body_sequence, lambda tier: sequence_case(tier), quick=4000, thorough=250000, shards_quick=3,
+             doc="2-5 operations (decode, row sum / any, column sum, element, row selection, ufuncs) on ONE object, each against "
+                 "numpy on the dense rows; the object decodes to the same rows after every step"),
     SubCheck("from-intervals", body_intervals, intervals_case, quick=3000, thorough=150000, shards_quick=1,
              doc="RunLength2dArray.from_intervals (scalar / per-row / default value, zero intervals) decodes to the indicator matrix; len/shape/size/reductions"),
 ]
